@@ -1,5 +1,6 @@
 Require Extraction.
 Require Import ExtrOcamlBasic.
 From Coq Require Import ZArith NArith.
-From VB Require Import Arith.CompactDefs.
-Extraction "C18_model.ml" Nat.pred N.succ Z.succ fromBits toBits.
+From VB Require Import Arith.CompactDefs Arith.U256Defs.
+Extraction "C18_model.ml" Nat.pred N.succ Z.succ fromBits toBits
+  of_u64 getLow64 bnot inc dec neg uadd usub mul32 umul cmp ubits shl shr udiv fromBits_b toBits_b uval.
